@@ -276,6 +276,7 @@ CHECKS["C16"] = {
     "units": [
         {"pkg": "gabikeys", "run": "TestVF_C16_Keys", "shards": {"quick": 4, "thorough": 8}, "timeout": {"quick": 900, "thorough": 3400}},
         {"pkg": "safeprime", "run": "TestVF_C16_WorkerStop", "shards": {"quick": 2, "thorough": 4}, "timeout": {"quick": 600, "thorough": 3400}},
+        {"pkg": "gabikeys", "run": "TestVF_C16_RandomSourceFault", "shards": {"quick": 2, "thorough": 4}, "timeout": {"quick": 900, "thorough": 3400}},
     ],
 }
 
